@@ -15,6 +15,7 @@ package common
 //@   props C20 C16 C03 C04 C06 C08 C14
 //@   ensures nodup(r0)
 //@   ensures forall e: T :: in(e, r0) <==> in(e, target)
+//@   ensures [member-form] forall e: T :: member(e, r0) <==> member(e, target)
 //@   ensures [size] len(r0) <= len(target) && (len(target) > 0 ==> len(r0) > 0)
 //@   loop 0 invariant forall e: T :: has(s, e) <==> (exists k :: 0 <= k && k < $i && target[k] == e)
 //@   loop 0 invariant [size] len(s) <= $i && ($i > 0 ==> len(s) > 0)
@@ -45,6 +46,7 @@ package common
 //@   props C20 C16 C14
 //@   ensures nodup(r0)
 //@   ensures forall e: T :: in(e, r0) <==> (in(e, l1) || in(e, l2))
+//@   ensures [member-form] forall e: T :: member(e, r0) <==> (member(e, l1) || member(e, l2))
 //@   loop 0 invariant forall e: T :: has(s, e) <==> (exists k :: 0 <= k && k < $i && l1[k] == e)
 //@   loop 1 invariant forall e: T :: has(s, e) <==> (in(e, l1) || (exists k :: 0 <= k && k < $i && l2[k] == e))
 //@   loop 2 invariant len(r) == $n && (forall k :: 0 <= k && k < $n ==> r[k] == $key(k))
